@@ -25,7 +25,9 @@ def OpOKM (M : Nat) (r : Rec) : Op → Prop
   | .advance n => n ≤ r.len
   | .truncate n => n ≤ r.len
   | .dropPart => 0 < r.parts
-  | .unsplitLast n c => r.off + r.cap + c ≤ r.A ∧ n ≤ c ∧ r.len + n ≤ M ∧ 0 < r.parts
+  -- `r.arc = true`: a handle that shares its allocation with a part is KIND_ARC (needed since `unsplitLast`
+  -- models `*self = other`: on a KIND_VEC record it would break `vec_exact`)
+  | .unsplitLast n c => r.off + r.cap + c ≤ r.A ∧ n ≤ c ∧ r.len + n ≤ M ∧ 0 < r.parts ∧ r.arc = true
   | _ => True
 
 /-- a history in which every operation respects the bound -/
@@ -65,19 +67,21 @@ theorem rinv_step_aux (M : Nat) (r : Rec) (op : Op) (hi : RInv r) (ho : OpOKM M 
   | dropOld => exact ⟨h1, h2, h3⟩
   | splitOffTail => simp only [step]; constructor <;> simp <;> omega
   | unsplitLast n c =>
-    obtain ⟨ha, hnc, _, _⟩ : r.off + r.cap + c ≤ r.A ∧ n ≤ c ∧ r.len + n ≤ M ∧ 0 < r.parts := ho
-    simp only [step]
-    split
-    · exact ⟨h1, h2, h3⟩
-    · refine ⟨?_, ?_, ?_⟩ <;> simp only <;> (try intro ha; have := h3 ha) <;> omega
+    obtain ⟨ha, hnc, _, _, harc⟩ :
+      r.off + r.cap + c ≤ r.A ∧ n ≤ c ∧ r.len + n ≤ M ∧ 0 < r.parts ∧ r.arc = true := ho
+    rcases unsplitLast_cases r n c with ⟨h0, e⟩ | ⟨h0, hc, e⟩ | ⟨h0, hc, hf, e⟩ | ⟨h0, hc, hf, e⟩
+    · rw [e]; refine ⟨?_, ?_, ?_⟩ <;> simp only [harc] <;> (try intro hx; cases hx) <;> omega
+    · rw [e]; exact ⟨h1, h2, h3⟩
+    · rw [e]; refine ⟨?_, ?_, ?_⟩ <;> simp only [harc] <;> (try intro hx; cases hx) <;> omega
+    · rw [e]
+      obtain ⟨el, hc', hi', hv'⟩ := reserve_layout r n h1 h2 h3
+      exact ⟨by show (reserve r n).len + n ≤ (reserve r n).cap; omega, hi', hv'⟩
   | roundTrip =>
     simp only [step]
     split
     · refine ⟨?_, ?_, ?_⟩ <;> simp
     · split
-      · split
-        · exact ⟨h1, h2, h3⟩
-        · exact ⟨h1, h2, h3⟩
+      · exact ⟨h1, h2, h3⟩
       · rename_i hp ha
         have ha' : r.arc = true := by simpa using ha
         refine ⟨?_, ?_, ?_⟩ <;> simp [ha'] <;> omega
@@ -121,10 +125,17 @@ theorem sinv_step (M Bd : Nat) (h4 : 4 * M ≤ Bd) (h8 : 8 ≤ Bd) (r : Rec) (op
       · exact ⟨by show r.len ≤ Bd; omega, hmem,
           Nat.le_trans (origCap_origRepr_le r.len) (by omega)⟩
       · split
-        · split
-          · exact ⟨hA, hp, ho⟩
-          · exact ⟨hA, hp, Nat.le_trans (origCap_origRepr_le r.A) hA⟩
+        · exact ⟨hA, hp, Nat.le_trans (origCap_origRepr_le r.A) hA⟩
         · exact ⟨hA, hp, ho⟩
+    | unsplitLast n c =>
+      have hk : r.len + n ≤ M := hok.2.2.1
+      rcases unsplitLast_cases r n c with ⟨_, e⟩ | ⟨_, _, e⟩ | ⟨_, _, _, e⟩ | ⟨_, _, _, e⟩
+      · rw [e]; exact ⟨hA, hp, ho⟩
+      · rw [e]; exact ⟨hA, hp, ho⟩
+      · rw [e]; exact ⟨hA, hp, ho⟩
+      · rw [e]
+        obtain ⟨a, b, c'⟩ := reserve_bound r n M Bd h1 h2 h3 hk h4 h8 hA hp ho
+        exact ⟨a, b, by show origCap (reserve r n).orig ≤ Bd; rw [c']; exact ho⟩
     | _ => simp [Op.refills] at hf
 
 theorem sinv_run (M Bd : Nat) (h4 : 4 * M ≤ Bd) (h8 : 8 ≤ Bd) (ops : List Op) :
@@ -197,11 +208,14 @@ theorem alloc_doubles (M : Nat) (r : Rec) (op : Op) (hi : RInv r) (hr : Refill M
   · exact absurd ha' ha
   · exact ⟨h1, h2, h3, h4⟩
 
-/-- every refill in the history happens with all parts dropped (retention window 0) -/
+/-- every refill in the history happens with all parts dropped (retention window 0); an `unsplit` is
+not a refill as long as it does not fall back to `extend_from_slice` (which would copy — and possibly
+reallocate — while the part is still alive) -/
 def Recycled (M : Nat) : Rec → List Op → Prop
   | _, [] => True
   | r, op :: ops =>
-    OpOKM M r op ∧ (match op with | .reserve _ | .append _ => r.parts = 0 | .roundTrip => r.parts = 0 | _ => True) ∧
+    OpOKM M r op ∧ (match op with | .reserve _ | .append _ => r.parts = 0 | .roundTrip => r.parts = 0
+                                  | .unsplitLast _ c => r.len = 0 ∨ c = 0 ∨ r.len = r.cap | _ => True) ∧
       Recycled M (step r op) ops
 
 
@@ -232,7 +246,8 @@ theorem ainv_refill (M : Nat) (r : Rec) (op : Op) (hi : AInv M r) (hr : Refill M
       omega
 
 theorem ainv_step (M : Nat) (r : Rec) (op : Op) (hi : AInv M r)
-    (hparts : match op with | .reserve _ | .append _ => r.parts = 0 | .roundTrip => r.parts = 0 | _ => True)
+    (hparts : match op with | .reserve _ | .append _ => r.parts = 0 | .roundTrip => r.parts = 0
+                            | .unsplitLast _ c => r.len = 0 ∨ c = 0 ∨ r.len = r.cap | _ => True)
     (hok : OpOKM M r op) : AInv M (step r op) := by
   refine ⟨rinv_step_aux M r op hi.rinv hok, ?_⟩
   by_cases hf : op.refills = false
@@ -248,9 +263,12 @@ theorem ainv_step (M : Nat) (r : Rec) (op : Op) (hi : AInv M r)
         split
         · simp at *
         · split
-          · split <;> exact ⟨rfl, rfl⟩
+          · exact ⟨rfl, rfl⟩
           · exact ⟨rfl, rfl⟩
       rw [e.1, e.2]; exact hi.pot
+    | unsplitLast n c =>
+      obtain ⟨eA, ea, _, _⟩ := unsplitLast_frame r n c hparts
+      rw [eA, ea]; exact hi.pot
     | _ => simp [Op.refills] at hf
 
 theorem ainv_run (M : Nat) (ops : List Op) :
@@ -281,5 +299,86 @@ def sampleOps : List Op := [.append 10, .splitTo 10, .dropPart, .reserve 5, .app
 example : HistOK 16 (init 0) sampleOps := by
   simp [sampleOps, HistOK, OpOKM, step, reserve, init, promote, growCap, origRepr, bitWidth]
 example : (run (init 0) sampleOps).A = 21 ∧ (run (init 0) sampleOps).allocs = 2 := by decide
+
+/-! ### the side conditions are decidable (so concrete histories can be checked by `decide`) -/
+
+instance OpOKM.dec (M : Nat) (r : Rec) : (op : Op) → Decidable (OpOKM M r op)
+  | .reserve k => inferInstanceAs (Decidable (r.len + k ≤ M))
+  | .append m => inferInstanceAs (Decidable (r.len + m ≤ M))
+  | .splitTo n => inferInstanceAs (Decidable (n ≤ r.len))
+  | .advance n => inferInstanceAs (Decidable (n ≤ r.len))
+  | .truncate n => inferInstanceAs (Decidable (n ≤ r.len))
+  | .dropPart => inferInstanceAs (Decidable (0 < r.parts))
+  | .unsplitLast n c =>
+    inferInstanceAs (Decidable (r.off + r.cap + c ≤ r.A ∧ n ≤ c ∧ r.len + n ≤ M ∧ 0 < r.parts ∧ r.arc = true))
+  | .split | .dropPinned | .dropOld | .splitOffTail | .roundTrip => isTrue trivial
+
+instance HistOK.dec (M : Nat) : (r : Rec) → (ops : List Op) → Decidable (HistOK M r ops)
+  | _, [] => isTrue trivial
+  | r, op :: ops => @instDecidableAnd _ _ (OpOKM.dec M r op) (HistOK.dec M (step r op) ops)
+
+/-! ### `unsplitLast`: non-vacuity, and why `Recycled` had to exclude its fall-back -/
+
+/-- a history through all four branches of `unsplitLast`: the spare capacity is split off and merged
+back (contiguous, main handle full); an empty zero-capacity part is dropped although the main handle is
+not full; the main handle is emptied and takes over the part (`*self = other`); a part that cannot be
+merged is copied (`extend_from_slice`), which — a part being alive — moves the buffer to a fresh
+allocation and pins the old one -/
+def unsplitOps : List Op :=
+  [.append 4, .splitOffTail, .unsplitLast 0 4,            -- merge: (len 4, cap 4) + (0, 4)
+   .truncate 3, .splitTo 0, .unsplitLast 0 0,             -- drop of an empty part, len 3 ≠ cap 8
+   .splitOffTail, .truncate 0, .unsplitLast 0 5,          -- `*self = other`
+   .append 3, .splitOffTail, .truncate 2, .unsplitLast 5 5] -- fall-back: copy, reallocates
+
+example : HistOK 16 (init 8) unsplitOps := by decide
+example : run (init 8) unsplitOps =
+    { A := 7, off := 0, len := 7, cap := 7, arc := false, orig := 0, parts := 0, pinned := [8], allocs := 2 } := by
+  decide
+example : (run (init 8) unsplitOps).A ≤ B 8 16 := (alloc_size_bounded 8 16 unsplitOps (by decide)).1
+
+/-- the condition `Recycled` imposed before `unsplitLast` modelled the fall-back of `BytesMut::unsplit`
+to `extend_from_slice`: nothing was asked of an `unsplitLast` beyond `OpOKM` -/
+def RecycledOld (M : Nat) : Rec → List Op → Prop
+  | _, [] => True
+  | r, op :: ops =>
+    OpOKM M r op ∧ (match op with | .reserve _ | .append _ => r.parts = 0 | .roundTrip => r.parts = 0 | _ => True) ∧
+      RecycledOld M (step r op) ops
+
+instance RecycledOld.dec (M : Nat) : (r : Rec) → (ops : List Op) → Decidable (RecycledOld M r ops)
+  | _, [] => isTrue trivial
+  | r, op :: ops =>
+    @instDecidableAnd _ _ (OpOKM.dec M r op)
+      (@instDecidableAnd _ _
+        (match op with
+         | .reserve _ | .append _ | .roundTrip => inferInstanceAs (Decidable (r.parts = 0))
+         | .splitTo _ | .split | .advance _ | .truncate _ | .dropPart | .dropPinned | .dropOld | .splitOffTail
+         | .unsplitLast _ _ => isTrue trivial)
+        (RecycledOld.dec M (step r op) ops))
+
+/-- one round of: split the spare capacity off, shorten the contents, unsplit a 5-byte part that can no
+longer be merged — the fall-back copies 5 bytes while the part is alive, i.e. allocates a fresh buffer
+of `max(7, original capacity) = 1024` bytes, every round -/
+def copyRound : List Op := [.truncate 3, .splitOffTail, .truncate 2, .unsplitLast 5 5]
+def copyHist : List Op := .append 3 :: (List.replicate 10 copyRound).flatten
+
+/-- **Why `Recycled` was adapted.**  With the exact `unsplitLast` the old condition no longer bounds the
+number of allocations: `copyHist` satisfies it with `M = 7`, yet performs 11 allocations, more than
+`log2(4M + 8) + 3 = 8` (and one more per further round).  This is the behaviour of the crate — an
+`unsplit` that has to copy is a refill with a part outstanding — so `Recycled` now requires every
+`unsplitLast` to be one of the non-copying kinds (`r.len = 0 ∨ c = 0 ∨ r.len = r.cap`). -/
+example : RecycledOld 7 (init 1024) copyHist ∧ (run (init 1024) copyHist).allocs = 11 ∧
+    Nat.log2 (4 * 7 + 8) + 3 = 8 ∧ HistOK 7 (init 1024) copyHist ∧
+    (run (init 1024) copyHist).A = 1024 := by decide
+
+/-! ### `roundTrip` re-records the original capacity also for a full KIND_VEC handle -/
+
+/-- A buffer created with 8 bytes that has grown to 2048: the round trip of the (full, hence
+promotable) handle re-records `original_capacity_repr = 2` (`promotable_to_mut` goes through
+`BytesMut::from_vec`), so the next refill with a live part allocates `max(10, 2048)` bytes.  Without the
+round trip the recorded original capacity is still that of the 8-byte buffer and the refill allocates
+10 bytes.  (Before its repair the model kept `orig` in the first history as well and predicted 10.) -/
+example :
+    (run (init 8) [.reserve 2048, .append 2048, .roundTrip, .splitTo 2048, .reserve 10]).A = 2048 ∧
+    (run (init 8) [.reserve 2048, .append 2048, .splitTo 2048, .reserve 10]).A = 10 := by decide
 
 end BytesVerif.Recycle
